@@ -95,17 +95,31 @@ def run_case(case, text):
     return it, w, warnings, err
 
 
-def result_json(it, w, err):
+def parse_fields_warning(msg):
+    m = re.search(r'record (\d+) -> (\d+) fields, record (\d+) -> (\d+) fields', msg)
+    return [int(m.group(2)), int(m.group(1)), int(m.group(4)), int(m.group(3))] if m else ['unparsed', msg[:80]]
+
+
+def result_json(it, w, err, warnings=()):
     if err is not None:
         return json.dumps({'err': err}, sort_keys=True, ensure_ascii=False, separators=(',', ':'))
-    return json.dumps({'rows': [[qgen.value_to_cell(v) for v in r] for r in w.rows], 'err': None, 'pulled': it.pulled, 'writes': w.writes,
-                       'afterRefusal': w.after_refusal, 'finished': w.finished}, sort_keys=True, ensure_ascii=False, separators=(',', ':'))
+    own = it.get_warnings()
+    warn_a = parse_fields_warning(own[0]) if own else None
+    rest = list(warnings)[len(own):]
+    fw = [x for x in rest if 'Number of fields' in x]
+    warn_b = parse_fields_warning(fw[0]) if fw else None
+    other = [x for x in rest if 'Number of fields' not in x]
+    d = {'rows': [[qgen.value_to_cell(v) for v in r] for r in w.rows], 'err': None, 'pulled': it.pulled, 'writes': w.writes,
+         'afterRefusal': w.after_refusal, 'finished': w.finished, 'warnA': warn_a, 'warnB': warn_b}
+    if other:
+        d['otherWarnings'] = other
+    return json.dumps(d, sort_keys=True, ensure_ascii=False, separators=(',', ':'))
 
 
 def op_query(payload):
     case = json.loads(payload)
     it, w, warnings, err = run_case(case, case['py'])
-    return result_json(it, w, err)
+    return result_json(it, w, err, warnings)
 
 
 impl_py.RAW_OPS['query'] = op_query
